@@ -490,8 +490,12 @@ fn f32_stream(rng: &mut Rng, count: usize, rep: &mut Report) {
         let n = rng.range(3, 14);
         let names: Vec<String> = (0..n).map(|i| format!("f{i}")).collect();
         let ints: Vec<usize> = (0..tri(n)).map(|_| rng.range(1, 99)).collect();
-        let cells: Vec<f32> = ints.iter().map(|k| *k as f32 / 10.0).collect();
-        let case = format!("up.run.f32\t{}\t{}\t(cells = these integers / 10 as f32)", names.join(","), ints.iter().map(|k| k.to_string()).collect::<Vec<_>>().join(" "));
+        // one matrix in four holds the smallest f32 there are (subnormal: halving one in f32 loses its last bit, halving it
+        // once widened to f64 does not)
+        let tiny = rng.chance(1, 4);
+        let cells: Vec<f32> = ints.iter().map(|k| if tiny { f32::from_bits(*k as u32) } else { *k as f32 / 10.0 }).collect();
+        let case = format!("up.run.f32\t{}\t{}\t({})", names.join(","), ints.iter().map(|k| k.to_string()).collect::<Vec<_>>().join(" "), if tiny { "cells = the f32 with these bit patterns" } else { "cells = these integers / 10 as f32" });
+        if tiny { rep.count("matrices:f32-subnormal"); }
         rep.case(&case, true);
         rep.count("matrices:f32-element-type");
         let m = DistanceMatrix::<f32>::new(names.clone(), &cells);
@@ -519,6 +523,13 @@ fn f32_stream(rng: &mut Rng, count: usize, rep: &mut Report) {
                 }
                 if !(h - lo <= 1e-12 * h.max(1.0)) {
                     rep.oracle("ultrametric", "leaves-not-equidistant-from-root:f32-matrix", &case, &format!("depths from {lo} to {h}: {leaves:?}"));
+                }
+                // the pair joined first is the closest pair and hangs half its distance below the join: the shortest tip branch
+                // is exactly half the smallest cell (a power-of-two division of an f32 widened to f64 is exact)
+                let min_cell = cells.iter().fold(f32::INFINITY, |a, b| a.min(*b)) as f64;
+                let min_tip = tree.get_leaves().iter().filter_map(|l| tree.get(l).ok().and_then(|n| n.parent_edge)).fold(f64::INFINITY, f64::min);
+                if min_tip != min_cell / 2.0 {
+                    rep.oracle("ultrametric", "closest-pair-not-at-half-its-distance:f32-matrix", &case, &format!("shortest tip branch {min_tip:e}, smallest cell {min_cell:e}"));
                 }
                 let mut neg = false;
                 rose.for_each(&mut |x, root| if !root && x.len.map_or(true, |l| l < 0.0) { neg = true; });
